@@ -6,7 +6,8 @@
 (*           then - outside - block on the item's mutex           (LSend);     *)
 (*           the state in between is pc = "counted".                           *)
 (*   Unlock: under the map lock ilen--, delete at zero            (UCount),    *)
-(*           then unlock the item's mutex                         (URecv).     *)
+(*           then unlock the item's mutex                         (URecv),     *)
+(*           return                                               (URet).      *)
 (* The map lock's critical sections never block, so each is one step.          *)
 (* CountUnderLock = FALSE is the defect variant: ilen++ happens after the map  *)
 (* lock was released (LFind, then LIncr).                                      *)
@@ -68,16 +69,19 @@ UCount(g) == /\ pc[g] = "unl"
                         /\ items' = IF ilen[m] = 1 THEN [items EXCEPT ![k] = 0] ELSE items
                         /\ my' = [my EXCEPT ![g] = m] /\ pc' = [pc EXCEPT ![g] = "uncounted"] /\ UNCHANGED c
              /\ UNCHANGED <<nextObj, slot, sendq, seen, key, left>>
-(* map.go:62: m.mutex.Unlock() - gate "fifomap.unlock.counted" sits before it *)
+(* map.go:62: m.mutex.Unlock() - gate "fifomap.unlock.counted" sits before it.  The receive hands the slot to the *)
+(* first blocked sender, which may return (and be seen returning) before this caller's own return is recorded.    *)
 URecv(g) == /\ pc[g] = "uncounted"
             /\ LET m == my[g] IN
                /\ slot[m] = 1
-               /\ IF sendq[m] = << >> THEN slot' = [slot EXCEPT ![m] = 0] /\ UNCHANGED <<sendq, seen>> /\ pc' = [pc EXCEPT ![g] = "idle"]
+               /\ IF sendq[m] = << >> THEN slot' = [slot EXCEPT ![m] = 0] /\ UNCHANGED <<sendq, seen>> /\ pc' = [pc EXCEPT ![g] = "released"]
                   ELSE /\ sendq' = [sendq EXCEPT ![m] = Tail(@)] /\ seen' = seen \ {Head(sendq[m])}
-                       /\ pc' = [pc EXCEPT ![g] = "idle", ![Head(sendq[m])] = "ret"] /\ UNCHANGED slot
-            /\ left' = [left EXCEPT ![g] = @ - 1]
-            /\ c' = CNext(c, Ev("rel_ret", g))
-            /\ UNCHANGED <<items, nextObj, ilen, key, my>>
+                       /\ pc' = [pc EXCEPT ![g] = "released", ![Head(sendq[m])] = "ret"] /\ UNCHANGED slot
+            /\ UNCHANGED <<items, nextObj, ilen, key, my, left, c>>
+URet(g) == /\ pc[g] = "released" /\ pc' = [pc EXCEPT ![g] = "idle"]
+           /\ left' = [left EXCEPT ![g] = @ - 1]
+           /\ c' = CNext(c, Ev("rel_ret", g))
+           /\ UNCHANGED <<items, nextObj, ilen, slot, sendq, seen, key, my>>
 
 (* the harness at a quiescent point with nobody inside a map operation: arrivals, then the number of entries *)
 Quiet == \A g \in G : pc[g] \in {"idle", "blocked", "in"}
@@ -91,7 +95,7 @@ Stuck == /\ \A g \in G : Dead(g) \/ (pc[g] = "idle" /\ left[g] = 0)
          /\ UNCHANGED <<items, nextObj, ilen, slot, sendq, seen, pc, key, my, left>>
 
 Next == \/ Stuck \/ Observe
-        \/ \E g \in G : (\E k \in Keys : Call(g, k)) \/ LCount(g) \/ LFind(g) \/ LIncr(g) \/ LSend(g) \/ LRet(g) \/ Exit(g) \/ UCount(g) \/ URecv(g)
+        \/ \E g \in G : (\E k \in Keys : Call(g, k)) \/ LCount(g) \/ LFind(g) \/ LIncr(g) \/ LSend(g) \/ LRet(g) \/ Exit(g) \/ UCount(g) \/ URecv(g) \/ URet(g)
 Spec == Init /\ [][Next]_vars /\ WF_vars(Next)
 
 Contract == ~IsBad(c)
